@@ -182,6 +182,30 @@ def make(shape: Dict[str, Any]) -> Any:
     return fn
 
 
+def make_directed(shape: Dict[str, Any]) -> Any:
+    """A message sent to an explicit unicast address without naming a socket (directed lookups, the unicast wrapper): it must
+    leave through the sockets of that address family only, to that address and port."""
+    dest = shape['dest']
+
+    def fn(ctx: Any) -> None:
+        t0 = ctx.int('t0', 2**43, 2**44)
+        loop = env.begin(ctx, t0)
+        env.use_token_packets(True)
+        zc = env.make_zc(loop, n_transports=3, families=['v4', 'v6', 'v4'])
+        port = ctx.int('port', 1, 65535)
+        out = construct_outgoing_multicast_answers({Svc('S1', T1, N1, 'alpha.local.', 80, [V4A], []).ptr()[0].make(4500, t0, False): set()})
+        zc.async_send(out, dest, port)
+        if ctx.twin:
+            return
+        sends = env.sent_log(zc)
+        want = ['sock1'] if ':' in dest else ['sock0', 'sock2']
+        ctx.check(sorted(s.transport for s in sends) == want, f'a message for {dest} left through {sorted(s.transport for s in sends)}, expected the sockets of its address family {want}')
+        for s in sends:
+            ctx.check(s.addr == dest and s.port == port, 'directed message not sent to the given address and port')
+
+    return fn
+
+
 def make_wire(shape: Dict[str, Any]) -> Any:
     """Header id, flags and class words of the real packets() for multicast / unicast replies."""
     multicast = shape['multicast']
@@ -287,6 +311,8 @@ def obligations(tier: str) -> List[Obligation]:
     if tier == 'thorough':
         shapes.update(THOROUGH)
     obs = [Obligation(f'route[{k}]', make(v), 'route', {'name': k, **v}, timeout=120 if tier == 'quick' else 600) for k, v in shapes.items()]
+    for dest in ('10.0.0.5', 'fe80::5', '::ffff:10.0.0.5'):
+        obs.append(Obligation(f'directed[{dest}]', make_directed({'dest': dest}), 'directed', {'dest': dest}, timeout=120))
     for name, sh in (('multicast', {'multicast': True}), ('unicast-qu', {'multicast': False}), ('unicast-legacy', {'multicast': False, 'legacy': True})):
         obs.append(Obligation(f'wire[{name}]', make_wire(sh), 'wire', sh, timeout=120))
     return obs
